@@ -645,14 +645,16 @@ func runC07(c *xs.Ctx, r *xs.Result) {
 		r.Count("transitions", int64(len(rep.Ops)))
 		return
 	}
-	b := bounds{nws: 4, depth: 6, maxStack: 3, maxViews: 2, maxViewW: 1}
+	b := bounds{nws: 3, depth: 6, maxStack: 3, maxViews: 2, maxViewW: 1}
 	if c.Thorough() {
 		b = bounds{nws: 6, depth: 7, maxStack: 3, maxViews: 2, maxViewW: 2}
 	}
+	// the schedule exploration is cheap and goes first; the sequential search takes the rest of the budget
+	runSched(c, r)
+	longHistories(c, r)
 	for _, ldb := range []bool{true, false} {
 		bfs(c, r, ldb, b)
 	}
-	runSched(c, r)
 }
 
 func report(r *xs.Result, mgr string, path []Op, x *run) {
@@ -730,6 +732,71 @@ func bfs(c *xs.Ctx, r *xs.Result, ldb bool, b bounds) {
 		}
 		if depth+1 == b.depth {
 			r.Count("shards_completed_depth_bound_"+name, 1)
+		}
+	}
+}
+
+// Part A2 — long histories: the leveldb-backed manager keeps historical-view overlays in two caches, the second one for
+// views at least 360 commits behind the frontier. The bounded search above cannot reach that distance, so a family of
+// long histories is enumerated separately: N commits, views opened at every X of a set straddling the 360 boundary
+// (each subset of two of them warmed before the rollback), k rollbacks, k' different commits, views reopened.
+func longHistories(c *xs.Ctx, r *xs.Result) {
+	const N = 366
+	xsSet := []int{1, 2, N - 361, N - 360, N - 359, N - 3} // far (second cache), at the boundary, near
+	idx := 0
+	for _, pops := range []int{1, 2, 3} {
+		for _, recommit := range []int{0, 1, 2} { // how many new commits after the rollback (0: just rolled back)
+			for wi := 0; wi < len(xsSet); wi++ {
+				for wj := wi; wj < len(xsSet); wj++ {
+					idx++
+					if !c.Mine(idx) {
+						continue
+					}
+					if c.Expired() {
+						r.Incomplete = true
+						return
+					}
+					var path []Op
+					for i := 0; i < N; i++ {
+						path = append(path, Op{K: "C", A: quickOrder[i%4]})
+					}
+					path = append(path, Op{K: "V", A: xsSet[wi]}, Op{K: "V", A: xsSet[wj]})
+					for i := 0; i < pops; i++ {
+						path = append(path, Op{K: "P"})
+					}
+					for i := 0; i < recommit; i++ {
+						path = append(path, Op{K: "C", A: []int{2, 5}[i%2]}) // write sets the replaced commits did not use at that height
+					}
+					// reopen every view of the set that still exists and compare
+					for _, x := range xsSet {
+						if x <= N-pops {
+							path = append(path, Op{K: "V", A: x})
+						}
+					}
+					x := newRun(c, true)
+					for i, o := range path {
+						x.apply(o)
+						if i >= N {
+							r.Count("reads_compared", int64(x.checkViews(o)))
+							// keep at most the two warm views + the latest reopened one open
+							if len(x.ref.views) > 3 {
+								x.ref.views = append(x.ref.views[:2], x.ref.views[len(x.ref.views)-1])
+							}
+						}
+						if x.errKey != "" {
+							break
+						}
+					}
+					r.Count("transitions", int64(len(path)))
+					r.Count("long_histories", 1)
+					if x.errKey != "" {
+						tail := path[N:]
+						r.Violate("C07:ldb:long-history:"+x.errKey, fmt.Sprintf("ldb manager, %d commits then [%s]: %s", N, opsString(tail), strings.Join(x.errs, "; ")),
+							map[string]interface{}{"manager": "ldb", "ops": path})
+					}
+					x.close()
+				}
+			}
 		}
 	}
 }
